@@ -529,14 +529,16 @@ def process(ctx, cases):
             ctx.violation(bad[0], c, bad[1])
 
 def fixed_cases():
-    """the corner cases named in DESIGN.md §10 (D4, D5) and in the property text, always run"""
+    """the corner cases named in DESIGN.md §10 (D4, D5, D6) and in the property text, always run.  D4 and D6 are
+    repaired in /repo; these inputs are regression inputs that must pass (the signatures stay in the oracle so that a
+    relapse is reported under the same name)"""
     base = {"family": "anneal", "labels": "int", "num": "int", "init": None, "in_order": True, "seed": 0,
             "sched": {"t": "explicit", "Ts": [1.0, 0.5]}, "num_anneals": 2, "shape": "fixed"}
     out = []
     for fn, kind in (("quso", "QUSOMatrix"), ("puso", "PUSOMatrix"), ("puso", "QUSOMatrix"),
                      ("qubo", "QUBOMatrix"), ("pubo", "PUBOMatrix")):
-        out.append(dict(base, fn=fn, kind=kind, ops=[[[], "5"]]))        # offset only, Matrix: D4
-        out.append(dict(base, fn=fn, kind=kind, ops=[]))                  # empty Matrix: D4
+        out.append(dict(base, fn=fn, kind=kind, ops=[[[], "5"]]))        # offset only, Matrix (D4 regression)
+        out.append(dict(base, fn=fn, kind=kind, ops=[]))                  # empty Matrix (D4 regression)
     for fn in ("quso", "puso", "qubo", "pubo"):
         for kind in KINDS[fn]:
             if kind not in MATRIX:
@@ -546,6 +548,16 @@ def fixed_cases():
     out.append(dict(base, fn="puso", kind="PUSOMatrix", ops=[[[0, 1, 2], "1"], [[0, 1, 2], "-1"]], shape="cancelled"))
     out.append(dict(base, fn="pubo", kind="PUBOMatrix", ops=[[[0, 1], "1"], [[0, 1], "-1"]], shape="cancelled"))
     out.append(dict(base, fn="quso", kind="QUSOMatrix", ops=[[[0, 2], "1"], [[0, 2], "-1"]], shape="cancelled"))
+    # D6 regression (repaired in /repo: anneal_temperature_range reads the variables that appear): a model whose terms
+    # all cancelled, default temperature range, both named schedules
+    for fn, kind, ops in (("quso", "QUSOMatrix", [[[0, 1], "1"], [[0, 1], "-1"]]),
+                          ("puso", "PUSOMatrix", [[[0, 1, 2], "2"], [[0, 1, 2], "-2"], [[], "3"]]),
+                          ("puso", "QUSO", [[[0, 1], "1"], [[0, 1], "-1"]]),
+                          ("qubo", "QUBO", [[[0], "1"], [[0], "-1"]]),
+                          ("pubo", "PUBOMatrix", [[[0, 1], "1/2"], [[0, 1], "-1/2"]])):
+        for name in ("linear", "geometric"):
+            out.append(dict(base, fn=fn, kind=kind, ops=ops, shape="cancelled",
+                            sched={"t": "named", "name": name, "duration": 5}))
     return out
 
 def check(ctx):
